@@ -8,7 +8,7 @@ import time
 sys.path.insert(0, os.path.join(os.path.dirname(os.path.abspath(__file__)), "..", "lib"))
 IC = CC = None
 
-LEAN_MODULES = ["KmipModel.Props.C02", "KmipModel.Props.C02Engine", "KmipModel.Props.C02Encode", "KmipModel.Props.ServerBytes"]
+LEAN_MODULES = ["KmipModel.Props.C02", "KmipModel.Props.C02Engine", "KmipModel.Props.C02Encode", "KmipModel.Props.ServerBytes", "KmipModel.Props.ServerWF"]
 RULE = ("(a) every primitive class on the C01 boundary pools: bytes written by /repo compared with the Lean M1 encoder "
         "(written from the specification) of the same value; (b) EVERY byte string /repo's write() produced in this run "
         "— all structure instances of the C01 generation (every Struct class x 6 versions x derived instances), the "
